@@ -284,6 +284,13 @@ Proof. exact quiescent_all_fin. Qed.
 Theorem do_bounded_work : forall ns pl progs s sc, R ns pl progs s -> (moves glob loc tstep s sc <= mu (getfs progs) s)%nat.
 Proof. exact bounded_work. Qed.
 
+(* existence form: from every reachable state - whatever the throw plan, also from the middle of a copy loop or
+   from an exception path - some schedule of at most mu(s) steps ends with every thread's program finished *)
+Theorem do_eventually_finishes : forall ns pl progs s, R ns pl progs s ->
+  exists sc, sched_ok any_choice sc /\ (length sc <= mu (getfs progs) s)%nat /\
+             all_fin glob loc fin (run glob loc tstep s sc) = true.
+Proof. exact eventually_finishes. Qed.
+
 (* ---------- non-vacuity: the hypotheses are met by concrete reachable states ---------- *)
 Definition t0 (n : nat) : list (nat * nat) := repeat (0, 0)%nat n.
 Definition t1 (n : nat) : list (nat * nat) := repeat (1, 0)%nat n.
@@ -392,3 +399,15 @@ Example ex_history :
   Some [(0%nat, GetFuture false 1 0, Some (2%nat, ORet 0)); (1%nat, SetValue false false 1 7, Some (6%nat, OExn));
         (0%nat, IsCompleted false 1, Some (8%nat, ORet 0)); (1%nat, FulfillAll 9, Some (11%nat, ORet 0))].
 Proof. vm_compute. split; reflexivity. Qed.
+
+(* do_eventually_finishes on a non-trivial state: thread 0 is inside fulfillAllPromises (at its copy, owning the
+   lock), thread 1 is blocked on the lock; four more steps finish both, well within the measure *)
+Example ex_eventually_finishes :
+  let progs := [[GetFuture false 1 0; FulfillAll 5]; [IsCompleted false 0]] in
+  let s := runx 1 [] progs [(0,0);(0,0);(0,0);(0,0);(0,0);(1,0)]%nat in
+  let sc := [(0,0);(0,0);(1,0);(1,0)]%nat in
+  is_ful (pcof (thr s) 0) = true /\ mtx (gl s) = Some 0%nat /\ is_lock (pcof (thr s) 1) = true /\
+  all_fin glob loc fin s = false /\
+  sched_ok any_choice sc /\ (length sc <= mu (getfs progs) s)%nat /\ mu (getfs progs) s = 9%nat /\
+  all_fin glob loc fin (run glob loc tstep s sc) = true.
+Proof. vm_compute. repeat split; try reflexivity; lia. Qed.
